@@ -6,6 +6,7 @@ package main
 import (
 	"fmt"
 	"go/types"
+	"os"
 	"strings"
 )
 
@@ -70,7 +71,13 @@ func init() {
 		"verifB2U": func(fr *frame, args []value) value {
 			return fr.m.st().Ite(args[0].(*Term), BV(1, 64), BV(0, 64))
 		},
-		"verifStrEq": func(fr *frame, args []value) value { return fr.m.strEq(args[0], args[1]) },
+		"verifStrEq": func(fr *frame, args []value) value {
+			r := fr.m.strEq(args[0], args[1])
+			if r != tTrue && os.Getenv("GOSYM_DEBUG_STREQ") != "" {
+				fmt.Fprintf(os.Stderr, "verifStrEq -> %s\n  A: %s\n  B: %s\n", r.String(), debugStr(args[0]), debugStr(args[1]))
+			}
+			return r
+		},
 		"verifBytesEq": func(fr *frame, args []value) value {
 			a, _ := args[0].([]value)
 			b, _ := args[1].([]value)
@@ -418,4 +425,20 @@ func decimal4(v int64) string {
 		v = -v
 	}
 	return fmt.Sprintf("%s%d.%04d", sign, v/10000, v%10000)
+}
+
+func debugStr(v value) string {
+	var sb strings.Builder
+	for _, p := range partsOf(v) {
+		if p.kind == "" {
+			sb.WriteString(p.lit)
+			continue
+		}
+		sb.WriteString("«" + p.kind)
+		for _, a := range p.args {
+			sb.WriteString(" " + a.String())
+		}
+		sb.WriteString("»")
+	}
+	return sb.String()
 }
